@@ -283,8 +283,13 @@ func cmdCheck(args []string) int {
 		if sp.Flags["trusted"] == "" {
 			funcsUnder = append(funcsUnder, sp.PkgPath[len(modulePath):]+"::"+sp.Key)
 		}
-		solveAll(c, c.obls, opts)
-		secondChance(c, c.obls, opts)
+		fopts := opts
+		if t, err := strconv.Atoi(strings.TrimSpace(sp.Flags["timeout"])); err == nil && t > fopts.timeoutS {
+			// a contract may ask for a longer per-obligation budget ("timeout N")
+			fopts.timeoutS = t
+		}
+		solveAll(c, c.obls, fopts)
+		secondChance(c, c.obls, fopts)
 		for a := range c.assume {
 			assumptions[a] = true
 		}
